@@ -9,6 +9,7 @@
   Core Lean only.
 -/
 import OtterVerif.Spec.Core
+import OtterVerif.Spec.Bulk
 
 namespace OtterVerif.Spec.Check
 open OtterVerif.Spec
@@ -622,21 +623,18 @@ def beginOp (l : Line) : M Unit := do
           modify fun c => { c with frames := { kind := "load", directKeys := [k] } :: c.frames }
   | ["bulkget", ks] =>
       let ks := parseNatList ks
-      let mut s := c.s
-      let mut hits : List (Nat × Nat) := []
-      let mut misses : List Nat := []
-      let mut stale : List (Nat × Option Nat) := []
-      for k in ks do
-        if (hits.any (·.1 == k)) || misses.contains k then continue
-        countDead k
-        match lookup cfg s k with
-        | (s', some e) =>
-            s := s'
-            hits := hits ++ [(k, e.val)]
-            if isStale cfg e s'.now then stale := stale ++ [(k, some e.val)]
-        | (s', none) =>
-            s := s'
-            misses := misses ++ [k]
+      for k in ks.eraseDups do countDead k
+      -- the classification of the request (hits, misses, effects of the reads) is Spec.bulkPlan: the function the theorems of
+      -- Props.C10 are about
+      let plan := bulkPlan cfg c.s ks
+      let s := plan.s
+      let hits := plan.hits
+      let misses := plan.misses
+      -- a hit whose refresh time has passed is reloaded (all such keys in one bulk reload)
+      let stale : List (Nat × Option Nat) := hits.filterMap (fun (k, v) =>
+        match s.phys k with
+        | some e => if isStale cfg e s.now then some (k, some v) else none
+        | none => none)
       setS s
       if !stale.isEmpty then queueTask { keys := stale, bulk := true }
       modify fun c => { c with frames := { kind := "bulkget", directKeys := misses, hits := hits } :: c.frames }
@@ -792,24 +790,22 @@ def retOp (l : Line) : M Unit := do
         let whole : LoadOutcome := if tag == "ok" then .ok 0 else if tag == "err" then .err 0 else .panic
         setS (recordLoad c.s whole)
         let mut pend : List (PAct × Option (List String)) := []
-        let mut loaded : List (Nat × Nat) := []
+        -- what BulkGet returns on the loader's word: Spec.bulkSupplied (the requested-and-missing keys the loader supplied)
+        let loaded : List (Nat × Nat) := if tag == "ok" then bulkSupplied (oc.keys.map (·.1)) kvs else []
         let mut chanParts : List (Nat × String) := []
         for (k, cid) in oc.keys do
           let oK : LoadOutcome :=
             if tag == "ok" then (match kvs.find? (·.1 == k) with | some p => .ok p.2 | none => .notFound 0)
             else if tag == "err" then .err 0 else .panic
           pend := pend ++ [(.finish k cid oc.isRefresh false oK, none)]
-          match oK with
-          | .ok v => loaded := loaded ++ [(k, v)]
-          | _ => pure ()
           let v : Nat := match oK with | .ok v => v | _ => (match kvs.find? (fun (p : Nat × Nat) => p.1 == k) with | some p => p.2 | none => 0)
           let errT := match oK with | .notFound _ => "nf" | _ => (if tag == "ok" then "nil" else if tag == "err" then "err" else "panic")
           chanParts := chanParts ++ [(k, s!"{k}:{v}:{errT}")]
         -- keys the loader volunteered are cached (fake calls) but not returned by BulkGet;
         -- a bulk refresh lists them in its result (the implementation's choice; no property constrains it)
         if tag != "pan" then
-          for (k, v) in kvs do
-            if !(oc.keys.any (·.1 == k)) then
+          for (k, v) in bulkVolunteered (oc.keys.map (·.1)) kvs do
+            if true then
               if tag == "ok" then
                 pend := pend ++ [(.finish k 0 oc.isRefresh true (.ok v), none)]
               else
